@@ -376,27 +376,28 @@ Section Validation.
         rewrite (P3 Hn), H0.
         assert (Hf : has BTM m1 = false) by (rewrite <- H2; unfold has; now rewrite El).
         destruct (Hnone _ Hf) as [-> ->]. unfold MaxInt64. lia. }
-    repeat split; auto; try tauto.
-    - intros a. destruct (N.eqb a BTM) eqn:Ea.
+    assert (C1 : forall a, sumfor a (mux_sources t) - sumfor a (mux_dests t)
+                           = if N.eqb a BTM then BTMValue g else 0).
+    { intros a. destruct (N.eqb a BTM) eqn:Ea.
       + apply N.eqb_eq in Ea. subst a. tauto.
       + apply N.eqb_neq in Ea. destruct (plookup a m2) as [v|] eqn:El.
         * apply plookup_in in El as Hin.
           assert (Hin' : In (a, v) (perm m2)) by (eapply Permutation_in; [apply Permutation_sym, Hperm|exact Hin]).
           rewrite <- Hbal. unfold getd. rewrite El. eauto.
         * assert (Hf : has a m1 = false) by (rewrite <- H2; unfold has; now rewrite El).
-          destruct (Hnone _ Hf) as [-> ->]. reflexivity.
-    - rewrite <- Hsrc. destruct (has a m1) eqn:Eh.
-      + unfold has in Eh. unfold getd. destruct (plookup a m1) as [v|] eqn:El; [|discriminate].
-        (* every stored value is a sum of non-negative amounts *)
-        assert (0 <= sumfor a (mux_sources t)).
-        { clear -Hns. induction (mux_sources t) as [|p l IHl]; cbn; [lia|].
-          inversion Hns; subst. fold (sumfor a l). destruct (N.eqb (fst p) a); [|auto].
-          specialize (IHl H2). lia. }
-        rewrite <- Hsrc in H. unfold getd in H. rewrite El in H. exact H.
-      + destruct (Hnone _ Eh) as [Hz _]. rewrite <- Hsrc in Hz. lia.
-    - rewrite <- Hsrc. pose proof (range_getd a m1 R1) as Rg. apply in_range_I64 in Rg.
-      unfold MaxInt64. lia.
-    - intros p Hp. rewrite <- Hsrc_has. apply I2. exact Hp.
+          destruct (Hnone _ Hf) as [-> ->]. reflexivity. }
+    assert (C2 : forall a, 0 <= sumfor a (mux_sources t) <= MaxInt64).
+    { intros a. split.
+      - (* a sum of non-negative amounts *)
+        clear -Hns. induction (mux_sources t) as [|p l IHl]; [cbn; lia|].
+        inversion Hns; subst. rewrite sumfor_cons. specialize (IHl H2).
+        destruct (N.eqb (fst p) a); lia.
+      - rewrite <- Hsrc. pose proof (range_getd a m1 R1) as Rg. apply in_range_I64 in Rg.
+        unfold MaxInt64. lia. }
+    assert (C6 : forall p, In p (mux_dests t) -> existsb (N.eqb (fst p)) (map fst (mux_sources t)) = true).
+    { intros p Hp. rewrite <- Hsrc_has. apply I2. exact Hp. }
+    destruct Hbtm as [C3 _].
+    exact (conj C1 (conj C2 (conj C3 (conj F1 (conj F2 C6))))).
   Qed.
 
   (* ---- results loop and ValidateTx ---- *)
@@ -473,13 +474,13 @@ Qed.
 Lemma nonneg_sources t : wf_tx t -> nonneg (mux_sources t).
 Proof.
   intros [Hi _]. unfold mux_sources, nonneg. apply Forall_map.
-  eapply Forall_impl; [|exact Hi]. intros i Hr. unfold mux_source.
+  eapply Forall_impl; [|exact Hi]. intros i Hr. cbn beta in Hr. unfold mux_source.
   destruct (is_cb i); cbn [snd]; [apply sum_outputs_u64_range|lia].
 Qed.
 Lemma nonneg_dests t : wf_tx t -> nonneg (mux_dests t).
 Proof.
   intros [_ Ho]. unfold mux_dests, nonneg. apply Forall_map.
-  eapply Forall_impl; [|exact Ho]. intros o Hr. cbn [snd]. lia.
+  eapply Forall_impl; [|exact Ho]. intros o Hr. cbn beta in Hr. cbn [snd]. lia.
 Qed.
 
 Lemma sumfor_dests a t : sumfor a (mux_dests t) = out_sum a t.
@@ -666,9 +667,13 @@ Section Property.
     Lemma coinbase_total : out_sum BTM t = out_total t.
     Proof.
       pose proof coinbase_outputs_btm as Hall. unfold out_sum, out_total.
-      induction (t_outputs t) as [|o l IH]; [reflexivity|]. cbn [fold_right].
-      rewrite (Hall o (or_introl eq_refl)), N.eqb_refl. rewrite IH; [reflexivity|].
-      intros o' Ho'. apply Hall. now right.
+      assert (forall l : list output, (forall o, In o l -> o_asset o = BTM) ->
+        fold_right (fun o acc => if N.eqb (o_asset o) BTM then o_amount o + acc else acc) 0 l
+        = fold_right (fun o acc => o_amount o + acc) 0 l) as Hl.
+      { induction l as [|o l IH]; intros Hl; [reflexivity|]. cbn [fold_right].
+        rewrite (Hl o (or_introl eq_refl)), N.eqb_refl. f_equal. apply IH.
+        intros o' Ho'. apply Hl. now right. }
+      apply Hl. exact Hall.
     Qed.
 
     (* a coinbase transaction: nothing but BTM is created, the uint64 total of the
@@ -679,12 +684,12 @@ Section Property.
     Proof.
       destruct balance as (B1 & B2 & B3 & _). specialize (B1 BTM). specialize (B2 BTM).
       rewrite coinbase_sources in B1, B2. cbn in B1, B2.
-      rewrite N.eqb_refl in B1, B2. cbn in B1, B2. rewrite coinbase_total in B1.
+      rewrite coinbase_total in B1.
       pose proof (sum_outputs_u64_mod t) as Hm.
       assert (Hpos : 0 <= out_total t) by (rewrite <- coinbase_total; apply out_sum_nonneg; exact Hwf).
       assert (Hle : out_total t mod 2^64 <= out_total t) by (apply Z.mod_le; lia).
       assert (Heq : sum_outputs_u64 (t_outputs t) = out_total t) by lia.
-      repeat split; try lia.
+      unfold MaxInt64 in *. repeat split; try lia.
       unfold fee. rewrite Hin. cbn. rewrite Hc. cbn.
       destruct (0 >? fee_out (t_outputs t)) eqn:E; [|reflexivity].
       exfalso. apply Z.gtb_lt in E.
@@ -711,6 +716,27 @@ Section Property.
     - apply fee_agrees. exact Ec.
   Qed.
 End Property.
+
+(* ---- the statements as exported to Props.v ---- *)
+Lemma fee_thm : forall cs vm perm, is_order perm -> forall b t g,
+  wf_tx t -> b_version b = 1 \/ t_outputs t <> [] ->
+  validate cs vm perm b t = Ok g -> has_coinbase t = false ->
+  BTMValue g = in_sum BTM t - out_sum BTM t /\ fee t = BTMValue g.
+Proof.
+  intros. split; [eapply btm_fee_exact|eapply fee_agrees]; eauto.
+Qed.
+
+Lemma coinbase_thm : forall cs vm perm, is_order perm -> forall b t g c,
+  wf_tx t -> b_version b = 1 \/ t_outputs t <> [] ->
+  validate cs vm perm b t = Ok g -> t_inputs t = [c] -> is_cb c = true ->
+  BTMValue g = 0 /\ fee t = 0 /\
+  (forall o, In o (t_outputs t) -> o_asset o = BTM) /\
+  out_total t <= MaxInt64 /\ sum_outputs_u64 (t_outputs t) = out_total t.
+Proof.
+  intros cs vm perm Hp b t g c Hwf Hv Hok Hin Hc.
+  destruct (coinbase_fee cs vm perm Hp b t g Hwf Hv Hok c Hin Hc) as (A & B & C & D).
+  repeat split; auto. eapply coinbase_outputs_btm; eauto.
+Qed.
 
 (* ------------------------------------------------------------------ *)
 (* The full statement of the fee clause, its refutation on the          *)
@@ -739,7 +765,7 @@ Lemma witness_mixed_wf : wf_tx witness_mixed.
 Proof. split; repeat constructor; cbn; lia. Qed.
 
 Lemma witness_mixed_run :
-  validate real_consts vm_true (fun m => m) (blk1 true) witness_mixed = Ok (mkG 100000000 299989 11 0)
+  validate real_consts vm_true (fun m => m) (blk1 true) witness_mixed = Ok (mkG 100000000 299990 10 0)
   /\ fee witness_mixed = 9999112.
 Proof. split; vm_compute; reflexivity. Qed.
 
@@ -750,6 +776,21 @@ Proof.
                 witness_mixed_wf eq_refl Hr).
   rewrite Hf in H. cbn in H. discriminate.
 Qed.
+
+(* the same statement restricted by the decidable guard that excludes exactly the
+   witness class *)
+Lemma holds_outside : forall cs vm perm, is_order perm -> forall b t g,
+  wf_tx t -> b_version b = 1 -> validate cs vm perm b t = Ok g ->
+  mixed_coinbase t = false ->
+  BTMValue g = fee t.
+Proof.
+  intros. symmetry. eapply fee_agrees_outside; eauto.
+Qed.
+
+(* the guard is satisfiable by validated transactions of both kinds (ex_tx, ex_cb below)
+   and false exactly on the witness *)
+Example guard_on_witness : mixed_coinbase witness_mixed = true.
+Proof. reflexivity. Qed.
 
 (* ------------------------------------------------------------------ *)
 (* Non-vacuity: the hypotheses are satisfiable by non-trivial values    *)
@@ -764,7 +805,7 @@ Definition ex_tx : tx :=
      mkOut KOrig 2%N 5 0; mkOut KOrig BTM 299000000 0].
 
 Example ex_validates :
-  validate real_consts vm_true (fun m => m) (blk1 false) ex_tx = Ok (mkG 1000000 4360 640 600)
+  validate real_consts vm_true (fun m => m) (blk1 false) ex_tx = Ok (mkG 1000000 4350 650 600)
   /\ fee ex_tx = 1000000 /\ wf_tx ex_tx /\ has_coinbase ex_tx = false.
 Proof.
   split; [vm_compute; reflexivity|]. split; [vm_compute; reflexivity|].
@@ -773,7 +814,7 @@ Qed.
 
 (* the same verdict under another iteration order of the parity map *)
 Example ex_validates_rev :
-  validate real_consts vm_true (@rev _) (blk1 false) ex_tx = Ok (mkG 1000000 4360 640 600).
+  validate real_consts vm_true (@rev _) (blk1 false) ex_tx = Ok (mkG 1000000 4350 650 600).
 Proof. vm_compute; reflexivity. Qed.
 
 (* amounts at 2^63-1 *)
@@ -799,8 +840,9 @@ Proof. vm_compute; reflexivity. Qed.
 Definition ex_cb : tx :=
   mkT 1 100 0 [mkIn KCoinbase 0%N 0 1%N 3] [mkOut KOrig BTM 0 0; mkOut KOrig BTM 285388127 0].
 Example ex_cb_validates :
-  validate real_consts vm_true (fun m => m) (blk1 true) ex_cb = Ok (mkG 0 0 0 0).
-Proof. vm_compute; reflexivity. Qed.
+  validate real_consts vm_true (fun m => m) (blk1 true) ex_cb = Ok (mkG 0 0 0 0)
+  /\ mixed_coinbase ex_cb = false /\ mixed_coinbase ex_tx = false.
+Proof. split; [vm_compute; reflexivity|split; reflexivity]. Qed.
 
 (* three outputs below 2^63 whose uint64 total wraps to 5: the coinbase source is 5 and
    the checked subtraction rejects *)
